@@ -492,8 +492,44 @@ def run_protos(ck):
     ck.coverage["distinct_nontrivial"] += len(set(json.dumps(c["wire"]) for c in cases if len(c.get("ch") or []) >= 3))
     ck.coverage["rule"] += ("protos: requests of the seven decoders that build their own label list (Datadog logs with 0..3 ddtags and four optional fields, Datadog Cloudflare lines, Datadog metrics with resources, "
                             "Elasticsearch document and bulk create objects, OTLP logs with resource/scope/record attributes overriding each other and a severity, InfluxDB metric lines), values incl. quotes, control bytes, "
-                            "non-ASCII, astral non-printables and > 100 bytes, each sent in 3 wire orders (OTLP: 4 map iterations) and once under FingerPrintType = Bernstein; non-trivial = at least 3 distinct strings in the label list, distinct by content. ")
+                            "non-ASCII, astral non-printables and > 100 bytes; Datadog ddtags as a TEXT of 0..4 comma-separated pieces (well-formed tags and junk: no value, digit first, blanks, trailing '!', non-ASCII letters and digits, backslashes, an ill-formed byte); "
+                            "OTLP attribute values as any-value trees up to depth 2 (string, bool, int, double incl. NaN / infinities / denormals / random bits, bytes, arrays, kvlists with keys colliding after SanitizeKey, no value); each request sent in 3 wire orders (OTLP: 4 map iterations) and once under FingerPrintType = Bernstein, "
+                            "its stored label list pushed again as a Loki stream, Loki pushes with and without X-Ttl-Days with and without the control label; non-trivial = at least 3 distinct strings in the label list, distinct by content. ")
     ck.extra["protos_input_classes"] = hist
+    # measured distribution of the newly modelled inputs: OTLP any-value nodes by kind and depth, ddtags texts
+    vk, depth_max = {}, 0
+
+    def walk(v, d):
+        nonlocal depth_max
+        vk[v["t"]] = vk.get(v["t"], 0) + 1
+        depth_max = max(depth_max, d)
+        for x in v.get("a") or []:
+            walk(x, d + 1)
+        for x in v.get("kv") or []:
+            walk(x["v"], d + 1)
+    dd = {"texts": 0, "empty": 0, "with a piece that is not a well-formed tag": 0, "with non-ASCII runes": 0, "with an ill-formed byte": 0, "tags stored": 0}
+    for c in ok:
+        w = c["wire"]
+        for key in ("res", "scope", "rec"):
+            for a in w.get(key) or []:
+                walk(a["v"], 0)
+        if w["kind"] == "dd_logs":
+            t = unhex(w.get("ddtags", ""))
+            dd["texts"] += 1
+            dd["empty"] += t == b""
+            pieces = t.split(b",") if t else []
+            dd["with a piece that is not a well-formed tag"] += any(not re.fullmatch(rb"[A-Za-z][A-Za-z_0-9\-.\\/]*:[A-Za-z_0-9\-.\\/:]+", p_) for p_ in pieces)
+            dd["with non-ASCII runes"] += any(b > 127 for b in t)
+            try:
+                t.decode("utf-8")
+            except UnicodeDecodeError:
+                dd["with an ill-formed byte"] += 1
+            dd["tags stored"] += max(0, len(strict_pairs(c)) - sum(1 for x in (w.get("fields") or []) if x) - 1) if isinstance(strict_pairs(c), list) else 0
+    names = {"s": "string", "b": "bool", "i": "int", "d": "double", "y": "bytes", "a": "array", "kv": "kvlist", "n": "no value"}
+    ck.extra["protos_otlp_value_nodes"] = dict({names[k]: v for k, v in sorted(vk.items())}, **{"deepest nesting": depth_max})
+    ck.extra["protos_ddtags_texts"] = dd
+    ck.obligation("generated OTLP attribute values reach every kind of the any-value tree (string, bool, int, double, bytes, array, kvlist, no value) and ddtags texts reach junk, non-ASCII letters and ill-formed bytes",
+                  len(vk) == 8 and dd["with a piece that is not a well-formed tag"] >= 5 and dd["with non-ASCII runes"] >= 3, "%s %s" % (vk, dd))
     ck.extra["protos_unsanitized"] = len(res["K_unsan"])
     ck.extra["protos_finding_classes"] = {"in_unsanitized_class": len(res["C_unsan"]), "of them with another fingerprint through Loki": len(res["K_unsan"]),
                                           "outside, pushed through Loki too": nloki - len(res["C_unsan"]), "ttl header + control label": len(res["K_hdr"]),
@@ -872,6 +908,8 @@ def run(ck):
         "C04: city.CH64 on label strings is an oracle (per-case table from the exported function); Hash128to64 and CH64 over the 24 accumulator bytes are transcribed and checked by the correspondence; FingerPrintType = CityHash (default) only",
         "C04: strconv.IsPrint on runes > 0xFF is an oracle table (the round-trip theorems hold for every IsPrint); ClickHouse's JSON functions are assumed to accept RFC 8259 (LabelJson.v) documents; strings.ToValidUTF8 and the rune walk of `for range` are transcribed (to_valid, utf8_fix) and checked by the correspondence",
         "C04: fingerprint injectivity is conditional on collision-freeness hypotheses that are tested, not proved",
+        "C04 protocols: unicode.Is(unicode.L, r) above U+007F is an oracle table per ddtags text (the theorems hold for every oracle); Go's regexp semantics for tagPattern (leftmost, greedy; unique match per start rune) is argued in model/DdTags.v and checked by the correspondence on texts with junk; encoding/json's string encoder, base64.StdEncoding and strconv.FormatFloat (C15's model/GoFloat.v) are transcribed and checked by the correspondence on OTLP any-value trees",
+        "C04 decode side: the reader's Go decoder (storedLabels) is RUN on every generated document; the SQL side (JSONExtractKeysAndValues / mapFromArrays) is represented as in C07/C17 (SqlEval.label_of over the key/value list) and label_document_meets_sql_reader proves the stored text meets that representation's premises (object of strings, distinct keys); ClickHouse itself is not available",
         "C04 histories: the (day, fingerprint, type) cache key CH64(day || fp || type) is modelled as the triple itself (no collisions); fastcache has no false positives; the cache is the production GoCache; a cache reset runs the ticker's body through hook VerifC04Reset; CH64 collision-freeness of the 64-bit key is a hypothesis of announcement_cache_refines; the mid-request flush above 1 MiB is modelled (Flush k: the chunk of the k-th open request is sent with its own insert outcomes; More k: it parses further streams; the model allows a flush at any stream boundary) and driven with real 1.1 MB log lines, one flush / continuation / completion at a time: the two inserts of a chunk are one atomic step of the model, so are the last chunk's inserts, the decision over all chunks and the cache update (End); chunks of different requests never share an INSERT batch in the runs (the insert service would couple their outcomes; the theorems quantify over all outcomes); single node (the cache is disabled in cluster mode); overlapping requests are driven through bodies that stay open (io.Pipe)",
         "C04 dates: ch-go's ToDate and Go's time.Truncate are transcribed (checked by the correspondence over 32 zones); the reader's own zone (upper date bound) belongs to C13",
     ]
